@@ -124,3 +124,75 @@ Example C09_example :
   Forall (fun d => small (enc_doc d)) (emitted (snd (c09_reach sw_deflate KSDyn 2 [FError; FNone; FError] ex_ops))) /\
   length (emitted (snd (c09_reach sw_deflate KSDyn 2 [FError; FNone; FError] ex_ops))) = 4%nat.
 Proof. exact c09_example. Qed.
+
+(* ------------------------------------------------------------------ retry after a refused write *)
+(* harness/c09.go (`retry`) re-issues an Add whose flush met a writer that refused
+   the call outright (FError: nothing consumed, an error returned).  Caller model,
+   Proofs/RetryProofs.v: [add_retry fuel st d now] = Add d; while the answer is
+   RFlush and fuel is left, Add d again.  [adds_with_retry] gives each document the
+   fuel "number of FError entries left in the schedule" (so: retry until the answer
+   is no longer RFlush or no refusal is left); [adds_with_retry_once] gives fuel 1
+   (what the harness does).  [add_ops_of ds] = the plain history Add d1 .. Add dk.
+   The GENERAL discipline is proved (and the retry-once discipline for schedules
+   without two refusals in a row); both hold for EVERY kind of collector (the
+   streaming kinds, their uncompressed variants; trivially the kinds that never
+   write), every batch size n (also n <= 0) and arbitrary documents. *)
+From FV.Proofs Require Import RetryProofs.
+
+Section C09_retry.
+Variable deflate : bytes -> bytes.
+
+(* a refused write is a no-op: after ANY history (all seven operations, any fault
+   schedule, any kind, any n), an Add that finds a refusing writer either does not
+   call the writer at all (writer literally unchanged), or consumes exactly that
+   refusal, leaves the writer's log and the collector literally unchanged and
+   answers RFlush.  This is FlushCollector's "reset only after a complete write"
+   plus "the streaming dynamic collector records the new schema only after the
+   flush succeeded" (C09_failed_write is the same fact for the compressing
+   streaming kinds under ops_ok, stated on the log; this one has no hypothesis). *)
+Theorem C09_refused_write_is_noop : forall k n fs ops d now r,
+  let st := c09_reach deflate k n fs ops in
+  w_faults (snd st) = FError :: r ->
+  let res := step deflate st (OAdd d now) in
+  snd (fst res) = snd st \/
+  (snd (fst res) = mkWriter (w_log (snd st)) r (w_closed (snd st)) /\ fst (fst res) = fst st /\ snd res = BAdd RFlush).
+Proof. exact (refused_write_noop deflate). Qed.
+
+(* the retrying run ends in the collector state of the run on a writer that never
+   fails, with the same complete records in the writer's log, and every document's
+   final answer is its fault-free answer *)
+Theorem C09_retry_equals_fault_free : forall k n fs ds, no_short fs ->
+  let r1 := adds_with_retry deflate (new_coll k n, mkWriter [] fs false) ds in
+  let r2 := run deflate (new_coll k n, mkWriter [] [] false) (add_ops_of ds) in
+  fst (fst r1) = fst (fst r2) /\ w_log (snd (fst r1)) = w_log (snd (fst r2)) /\ snd r1 = snd r2.
+Proof. exact (retry_equals_fault_free deflate). Qed.
+
+(* the harness's discipline: the same document once more; sufficient when the
+   schedule never refuses twice in a row *)
+Theorem C09_retry_once_equals_fault_free : forall k n fs ds, no_short fs -> no_adj_err fs = true ->
+  let r1 := adds_with_retry_once deflate (new_coll k n, mkWriter [] fs false) ds in
+  let r2 := run deflate (new_coll k n, mkWriter [] [] false) (add_ops_of ds) in
+  fst (fst r1) = fst (fst r2) /\ w_log (snd (fst r1)) = w_log (snd (fst r2)) /\ snd r1 = snd r2.
+Proof. exact (retry_once_equals_fault_free deflate). Qed.
+
+End C09_retry.
+
+Print Assumptions C09_refused_write_is_noop.
+Print Assumptions C09_retry_equals_fault_free.
+Print Assumptions C09_retry_once_equals_fault_free.
+
+(* non-vacuity: three one-metric documents, n = 1, schedule refuse / accept / refuse /
+   accept; the second and third Add are each issued twice, both refusals are
+   consumed, two records reach the writer; without the retry the second document
+   is lost *)
+Example C09_retry_example :
+  no_short rt_faults /\ no_adj_err rt_faults = true /\
+  let r1 := adds_with_retry sw_deflate (new_coll KStream 1, mkWriter [] rt_faults false) rt_docs in
+  let r1' := adds_with_retry_once sw_deflate (new_coll KStream 1, mkWriter [] rt_faults false) rt_docs in
+  let r2 := run sw_deflate (new_coll KStream 1, mkWriter [] [] false) (add_ops_of rt_docs) in
+  snd r1 = [BAdd ROk; BAdd ROk; BAdd ROk] /\ r1' = r1 /\
+  w_faults (snd (fst r1)) = [] /\ length (w_log (snd (fst r1))) = 2%nat /\
+  fst (fst r1) = fst (fst r2) /\ w_log (snd (fst r1)) = w_log (snd (fst r2)) /\
+  snd (run sw_deflate (new_coll KStream 1, mkWriter [] rt_faults false) (add_ops_of rt_docs)) =
+    [BAdd ROk; BAdd RFlush; BAdd ROk].
+Proof. exact retry_example. Qed.
